@@ -89,4 +89,18 @@ CHECKS = {
         "note": "Trusted: rustc MIR (debug-assertion build of the generic code, pre-monomorphisation); invariant rows of "
                 "rules/tables/panic_runtime.json are human judgements, each with its reason in the evidence.",
     },
+    "C16": {
+        "engine": "mirfacts",
+        "level": "other",
+        "ref": "DESIGN.md §5 C16",
+        "technique": "may-panic census over the call graph with dominating-guard discharge and an audited triage table; "
+                     "guarded-insert, identifier-validation, check-coverage and finite-table backing rules",
+        "text": "Every panic-capable construct of the compiler reachable from process_grammar/process_dir/generate_parser/"
+                "rcomp::main is enumerated from MIR and is class-discharged, guard-discharged, an audited invariant or a "
+                "listed (reproduced) finding; invariants that rest on other code are backed by rules (diagnostics still "
+                "returned as Err, symbol-table inserts guarded, identifiers validated, recogniser check over every terminal, "
+                "no_match table, trait overrides). A new unwrap/assert/index or a weakened check is reported with its site.",
+        "note": "Trusted: rustc MIR; invariant rows of rules/tables/panic_compiler.json are human judgements with reasons; "
+                "third-party crates (syn, prettyplease, clap) out of scope; termination not decided.",
+    },
 }
